@@ -308,7 +308,7 @@ def file_info(ctx, nfiles, ndamaged, budget_events):
             ctx.violation("fileinfo:model_file_size", "model %d, file %d" % (big_(it["obs"]["fsize"]), it["built"]["size"]),
                           dict(kind="file", item=it["streams"]))
     # read sizes per file within the event budget
-    spent = 0
+    spent = 0; nfirst = 0
     for it in items:
         size = it["built"]["size"]
         reads = [8192, size, 0]
@@ -316,6 +316,12 @@ def file_info(ctx, nfiles, ndamaged, budget_events):
             reads = [8192, size]
         elif it.get("sweep"):
             reads = [size, 1000, 0]
+            if nfirst < 3 and size - 8192 - 16 >= 12:
+                # a first chunk that ends d bytes before the decoder's first look-back window (file size - 8192),
+                # d = 0..16, then the rest of the file (seeks followed): internal seeks at the edge of a partly
+                # consumed input buffer
+                nfirst += 1
+                reads += [[size - 8192 - d, size] for d in range(17)]
         elif it.get("bigindex"):
             reads = [size, 8192, 3, 1]
         else:
@@ -338,14 +344,14 @@ def file_info(ctx, nfiles, ndamaged, budget_events):
                 seen.add(key)
                 ctx.violation(key, detail, dict(kind="file", item=it["streams"], damage=it.get("damage")))
         for t in r["traces"]:
-            ctx.case(key=("fileinfo", json.dumps(it["streams"]), json.dumps(it.get("damage")), t["rs"]))
+            ctx.case(key=("fileinfo", json.dumps(it["streams"]), json.dumps(it.get("damage")), json.dumps(t["rs"])))
             if "damage" not in it and t["ret"] != "STREAM_END" and "fileinfo:ret:" + t["ret"] not in seen:
                 seen.add("fileinfo:ret:" + t["ret"])
-                ctx.violation("fileinfo:ret:" + t["ret"], "valid file, read size %d: %s" % (t["rs"], t["ret"]),
+                ctx.violation("fileinfo:ret:" + t["ret"], "valid file, read size %s: %s" % (t["rs"], t["ret"]),
                               dict(kind="file", item=it["streams"], events=t["events"][-5:]))
             if it.get("bigindex") and t["rs"] == 1 and ctx.quick:
                 continue          # (quick: the 17000 one-byte calls are made and judged by their result, not trace-validated)
-            hists.append(("file%d%s/rs%d" % (it["id"], "dmg" if "damage" in it else "", t["rs"]), t["events"]))
+            hists.append(("file%d%s/rs%s" % (it["id"], "dmg" if "damage" in it else "", t["rs"]), t["events"]))
     nev = sum(len(e) for _, e in hists)
     rej = tracev.validate(ctx, "TraceFileInfo", hists,
                           lambda label, e, i: "trace:fileinfo:%s:%s" % ("damaged" if "dmg" in label else "valid", e.get("ret", e.get("e"))))
